@@ -204,6 +204,21 @@ func genWorld(seed uint64, rich bool) *world {
 		if len(w.builders) > 0 && r.chance(50) {
 			b.SetCANIDBuilder(w.builders[r.below(len(w.builders))])
 			w.count("bus-custom-builder")
+		} else if r.chance(40) {
+			// the builder the bus was created with, edited in place
+			cb := b.CANIDBuilder()
+			switch r.below(4) {
+			case 0:
+				cb.RemoveOperation(r.below(3))
+			case 1:
+				cb.InsertOperation(acmelib.CANIDBuilderOpKind(r.below(4)), r.below(20), r.below(12), r.below(len(cb.Operations())+1))
+			case 2:
+				cb.RemoveAllOperations()
+			case 3:
+				cb.UseMessagePriority(r.below(28))
+				cb.SetDesc(w.desc())
+			}
+			w.count("bus-default-builder-edited-in-place")
 		} else {
 			w.count("bus-default-builder")
 		}
